@@ -95,6 +95,7 @@ with prel : pat -> pat -> Prop :=
 | PRVar x : prel (PVar x) (PVar x)
 | PRWild : prel PWild PWild
 | PRExpr e e' : crel e e' -> prel (PExpr e) (PExpr e')
+| PRExprs l l' : crel_list l l' -> prel (PExprs l) (PExprs l')
 | PRArr l l' : irel_list l l' -> prel (PArr l) (PArr l')
 | PRTup l l' : irel_attrs l l' -> prel (PTup l) (PTup l')
 | PRDict l l' : irel_entries l l' -> prel (PDict l) (PDict l')
@@ -169,6 +170,7 @@ Inductive ctx :=
 | XRankL (c : ctx) (f : expr) | XRankR (a : expr) (c : ctx)
 with pctx :=
 | YExpr (c : ctx)
+| YExprs (l1 : list expr) (c : ctx) (l2 : list expr)
 | YArr (l1 : list pitem) (ic : ictx) (l2 : list pitem)
 | YTup (l1 : list (name * pitem)) (n : name) (ic : ictx) (l2 : list (name * pitem))
 | YDictK (l1 : list (expr * pitem)) (c : ctx) (i : pitem) (l2 : list (expr * pitem))
@@ -217,6 +219,7 @@ Fixpoint plug (c : ctx) (h : expr) : expr :=
 with pplug (pc : pctx) (h : expr) : pat :=
   match pc with
   | YExpr c => PExpr (plug c h)
+  | YExprs l1 c l2 => PExprs (l1 ++ plug c h :: l2)
   | YArr l1 ic l2 => PArr (l1 ++ iplug ic h :: l2)
   | YTup l1 n ic l2 => PTup (l1 ++ (n, iplug ic h) :: l2)
   | YDictK l1 c i l2 => PDict (l1 ++ (plug c h, i) :: l2)
@@ -245,7 +248,7 @@ Fixpoint ctx_depth (c : ctx) : nat :=
   end
 with pctx_depth (pc : pctx) : nat :=
   match pc with
-  | YExpr c | YDictK _ c _ _ => S (ctx_depth c)
+  | YExpr c | YExprs _ c _ | YDictK _ c _ _ => S (ctx_depth c)
   | YArr _ ic _ | YTup _ _ ic _ | YDictI _ _ ic _ | YSet _ ic _ => S (ictx_depth ic)
   end
 with ictx_depth (ic : ictx) : nat :=
@@ -290,7 +293,7 @@ Definition same_data_meaning (e e' : expr) : Prop :=
 Fixpoint pat_names (p : pat) : list name :=
   match p with
   | PVar x => [x]
-  | PWild | PExpr _ => []
+  | PWild | PExpr _ | PExprs _ => []
   | PArr items | PSet items => flat_map item_names items
   | PTup attrs => flat_map (fun a => item_names (snd a)) attrs
   | PDict entries => flat_map (fun a => item_names (snd a)) entries
@@ -344,6 +347,7 @@ with subst_pat (x : name) (v : val) (p : pat) : pat :=
   | PVar y => PVar y
   | PWild => PWild
   | PExpr e => PExpr (subst x v e)
+  | PExprs es => PExprs (map (subst x v) es)
   | PArr items => PArr (map (subst_item x v) items)
   | PTup attrs => PTup (map (fun a => (fst a, subst_item x v (snd a))) attrs)
   | PDict entries => PDict (map (fun a => (subst x v (fst a), subst_item x v (snd a))) entries)
